@@ -507,6 +507,18 @@ def has_call(leaves, names):
     return any(leaf_is_call(l, names) for l in leaves)
 
 
+def deep_leaves(b, op, depth=4, **kw):
+    """trace(), with aggregate leaves (tuples, `Cow::Owned(x)`, struct literals) replaced by the leaves of their operands"""
+    out = []
+    for l in C.trace(b, op, **kw):
+        if l.kind == "aggregate" and depth > 0 and l.data.get("ops"):
+            for o in l.data["ops"]:
+                out += deep_leaves(b, o, depth - 1, **kw)
+        else:
+            out.append(l)
+    return out
+
+
 ITER_MAPPERS = ("std::iter::Iterator::map", "std::iter::Iterator::flat_map", "std::iter::Iterator::filter_map", "std::iter::Iterator::inspect")
 ITER_JOINERS = ("std::iter::Iterator::chain", "std::iter::Iterator::zip")
 
